@@ -160,3 +160,26 @@ add({"name": "check_sequence_fits", "file": "dfs/storage.cc",
                (r"return false;", "{ g_cf_witness = i; return false; }", 3),
                (r"(while \(i < limit && done < to_do\))", r"\1 FITS_LOOP_CONTRACT", 1)],
      "dropped": ["local typedef"]})
+
+# ---- cmd_free.cc (C14): the used/free computation of CommandFree::invoke (statement region) ---------
+add({"name": "free_compute", "file": "dfs/cmd_free.cc",
+     "anchor": r"int sectors_used = [^;]*;\s*const std::vector<DFS::CatalogEntry> entries = catalog\.entries\(\);",
+     "region_end": r"std::cout << std::uppercase;",
+     "region_epilogue": "out->files_free = files_free; out->files_used = files_used; out->sectors_free = sectors_free; out->sectors_used = sectors_used;\n",
+     "sig": "static void free_compute(const struct CatalogEntry *entries, size_t entries_n, const struct CatalogView *catalog, struct free_result *out)",
+     "rules": [(r"const std::vector<DFS::CatalogEntry> entries = catalog\.entries\(\);", "/* entries: parameter */", 1),
+               (r"catalog\.catalog_sectors\(\)", "catalog->catalog_sectors", "=0or1"),
+               (r"for \(const auto& entry : entries\)", "for (size_t ei = 0; ei < entries_n; ++ei) FREE_LOOP_CONTRACT", 1),
+               (r"entry\.file_length\(\)", "CatalogEntry_file_length(&entries[ei])", ">=2"),
+               (r"entry\.start_sector\(\)", "CatalogEntry_start_sector(&entries[ei])", 1),
+               ASSERT(2), (r"std::numeric_limits<int>::max\(\)", "INT_MAX", 2),
+               (r"\bdiv_t\b", "verif_div_t", 1), (r"\bdiv\(", "verif_div(", 1), (r"static_cast<int>\(", "(int)(", 2),
+               (r"DFS::SECTOR_BYTES", "SECTOR_BYTES", ">=1"),
+               (r"sectors_used = last_sector_of_file;", "{ sectors_used = last_sector_of_file; g_used_witness = ei; }", 1),
+               (r"ostream_flag_saver restore_cout_flags\(std::cout\);", "/* dropped: stream flag saver */", 1),
+               (r"auto show = \[\]\(int files, int sectors, const std::string& desc\)\s*\{.*?\};", "/* dropped: output lambda (formatting is outside this contract) */", 1),
+               (r"auto prevlocale = std::cout\.imbue\(.*?\);", "/* dropped: locale */", 1),
+               (r"entries\.size\(\)", "entries_n", 2),
+               (r"catalog\.max_file_count\(\)", "catalog->max_file_count", 1),
+               (r"catalog\.total_sectors\(\)", "catalog->total_sectors", 1)],
+     "dropped": ["ostream_flag_saver", "the `show` output lambda", "locale imbue"]})
